@@ -235,31 +235,75 @@ def zero_feasible_positive_violated(ctx):
                       'with the condition %s (%s) the added penalty term has sign %s, expected %s' % (label, sgn, sorted(got), want), f, f.node)
 
 
+def _cond_of(body):
+    for x in T.subterms(body):
+        if isinstance(x, tuple) and x and x[0] == 'call' and x[2] == (('name', '_b0'),):
+            return x[1]
+    return ('name', '?')
+
+
 @rule('C15.e', min_instances=4)
 def combinators(ctx):
     """coupler.and_ sums its members (zero iff all zero), or_ takes the minimum (zero iff any zero), not_ negates (0 - f / not f by type suffix); additive adds"""
     CP = 'mystic.coupler'
+    zero_fn = ('lambda', ('_b0',), (), T.num(0))
     for name, agg in (('and_', 'sum'), ('or_', 'min')):
         f = ctx.func('%s:%s' % (CP, name))
-        lam = [s for s in f.node.body if isinstance(s, ast.Assign) and isinstance(s.targets[0], ast.Name) and s.targets[0].id == 'penalty'
-               and isinstance(s.value, ast.Lambda)]
-        ctx.need(lam, '%s: aggregated penalty lambda not found' % name)
-        body = ''.join(unparse(lam[0].value.body).split())
-        ctx.check(body == '%s((p(x)forpinpenalties))' % agg or body == '%s(p(x)forpinpenalties)' % agg, 'coupler.' + name,
-                  'aggregates with %s over every member at x' % agg, 'coupler.%s aggregates as %s' % (name, body), f, lam[0])
-        pf = [s for s in f.node.body if isinstance(s, ast.Assign) and isinstance(s.targets[0], ast.Name) and s.targets[0].id == 'pf'
-              and isinstance(s.value, ast.Call)]
-        ctx.check(bool(pf) and ''.join(unparse(pf[0].value).split()) == 'ptype(penalty,**settings)(lambdax:0.0)', 'coupler.%s#wrap' % name,
-                  'wrapped by ptype around a zero function', 'coupler.%s wraps its aggregate as %s' % (name, unparse(pf[0].value) if pf else None), f, pf[0] if pf else f.node)
+        rts = return_terms(f.node)
+        ctx.need(rts, '%s: no return' % name)
+        # what is returned: <some penalty type>(<aggregate over the members at x>, **settings)(<zero function>), locals substituted
+        okagg = okwrap = True
+        shown = ''
+        for p, term, b, conds in rts:
+            okp = term[0] == 'call' and term[2] == (zero_fn,) and term[1][0] == 'call' and len(term[1][2]) == 1
+            if not okp:
+                okwrap = False
+                shown = T.show(term)[:100]
+                continue
+            inner = term[1][2][0]
+            want = []
+            for comp in ('genexp', 'listcomp'):
+                want.append(('lambda', ('_b0',), (), ('call', ('name', agg), ((comp, (('call', ('name', '_b1'), (('name', '_b0'),), ()),), ((('name', '_b1'), ('name', 'penalties'), ()),)),), ())))
+            if inner not in want:
+                okagg = False
+                shown = T.show(inner)[:100]
+        ctx.check(okagg, 'coupler.' + name, 'aggregates with %s over every member at x' % agg, 'coupler.%s aggregates as %s' % (name, shown), f, f.node)
+        ctx.check(okwrap, 'coupler.%s#wrap' % name, 'wrapped by ptype around a zero function', 'coupler.%s wraps its aggregate as %s' % (name, shown), f, f.node)
     f = ctx.func(CP + ':not_')
-    ifs = [s for s in f.node.body if isinstance(s, ast.If) and 'endswith' in unparse(s.test)]
-    ctx.need(ifs, 'not_: type-suffix dispatch not found')
-    i0 = ifs[0]
-    t_ok = ''.join(unparse(i0.test).split()) == "ptype.__name__.endswith('_inequality')"
-    b1 = ''.join(unparse(i0.body[0]).split()) if i0.body else ''
-    b2 = ''.join(unparse(i0.orelse[0]).split()) if i0.orelse else ''
-    ctx.check(t_ok and b1 == '_penalty=lambdax:0-condition(x)' and b2 == '_penalty=lambdax:notcondition(x)', 'coupler.not_',
-              'inequality: 0 - f ; equality: not f', 'not_ inverts as %s / %s' % (b1, b2), f, i0)
+    rts = return_terms(f.node)
+    ctx.need(rts, 'not_: no return')
+    # per path: the function handed to the penalty type is  x -> 0 - condition(x)  where the path knows the *applied* type's name ends
+    # with _inequality, and  x -> not condition(x)  where it knows it does not; condition = penalty.func if present, else penalty
+    n = 0
+    bad = None
+    for p, term, b, conds in rts:
+        if not (term[0] == 'call' and term[1][0] == 'call' and term[1][2]):
+            bad = 'returns %s' % T.show(term)[:80]
+            continue
+        applied = term[1][1]                       # the penalty type that is applied
+        inv = term[1][2][0]
+        if not (isinstance(inv, tuple) and inv[0] == 'lambda'):
+            bad = 'the inverted condition is %s' % T.show(inv)[:80]
+            continue
+        suffix_test = ('call', ('attr', ('attr', applied, '__name__'), 'endswith'), (('const', '_inequality'),), ())
+        known = None
+        for c, tr, _ in conds:
+            if c == suffix_test:
+                known = tr
+        body = inv[3]
+        neg = body[0] != 'not'
+        n += 1
+        if known is None:
+            bad = 'the negation does not depend on the name of the applied penalty type (%s)' % T.show(applied)[:40]
+        elif known != neg:
+            bad = 'an %s type gets %s' % ('inequality' if known else 'equality', T.show(body)[:60])
+        else:
+            inner_call = body[1] if body[0] == 'not' else None
+            if neg:
+                # 0 - c(x): a polynomial -c(x)
+                if not ('call' in repr(body) and T.simp(T.padd(body, ('call', _cond_of(body), (('name', '_b0'),), ()))) == T.num(0)):
+                    bad = 'the inequality negation is %s, not 0 - condition(x)' % T.show(body)[:60]
+    ctx.check(bad is None and n >= 2, 'coupler.not_', 'inequality: 0 - f ; equality: not f (decided by the applied type)', 'not_: %s' % bad, f, f.node)
     g = ctx.func(CP + ':additive.dec.func')
     from .. import siblings as SB
     got, want = SB.agree(g.node, 'def func(x, *argz, **kwdz):\n    return f(x, *argz, **kwdz) + penalty(x, *args, **kwds)\n')
@@ -277,7 +321,14 @@ def adapters_keep_the_penalty_closure_family(ctx):
         pen = inner[0]
         cond = cond_name or f.args()[0]
         want = T.term(ast.parse('ptype(%s, *args, **kwds)' % cond, mode='eval').body)
-        decs = [T.term(d) for d in pen.decorator_list]
+        bld = T.Builder()
+        for st0 in f.node.body:
+            if st0 is pen:
+                break
+            if isinstance(st0, ast.Assign) and all(isinstance(tg, ast.Name) for tg in st0.targets) and not guards_of(st0, stop=f.node):
+                if not (isinstance(st0.targets[0], ast.Name) and st0.targets[0].id == 'ptype'):
+                    bld.exec_stmt(st0)        # a decorator held in a temporary is the same decorator
+        decs = [T.simp(bld.t(d)) for d in pen.decorator_list]
         ctx.check(decs == [want], f.qualname + '#decorators', 'decorated by ptype(%s, *args, **kwds) only' % cond,
                   '%s decorates its penalty with %s: a decorator applied on top of the penalty type can overwrite the closures (iter, clear, error, store, ...) '
                   'the type attached' % (f.qualname, [unparse(d) for d in pen.decorator_list]), f, pen)
@@ -287,7 +338,7 @@ def adapters_keep_the_penalty_closure_family(ctx):
         after = [s for s in f.node.body if s.lineno > pen.lineno]
         sets = [s for s in after if isinstance(s, ast.Assign) and isinstance(s.targets[0], ast.Attribute) and isinstance(s.targets[0].value, ast.Name) and s.targets[0].value.id == pen.name]
         extra = [s for s in sets if s.targets[0].attr not in ('func', 'ptype')]
-        other = [s for s in after if s not in sets and not isinstance(s, ast.Return)]
+        other = [s for s in after if s not in sets and not isinstance(s, (ast.Return, ast.Import, ast.ImportFrom))]
         rets = [s for s in after if isinstance(s, ast.Return)]
         good = not extra and not other and len(rets) == 1 and isinstance(rets[0].value, ast.Name) and rets[0].value.id == pen.name
         ctx.check(good, f.qualname + '#result', 'only .func and .ptype are set; the decorated penalty is returned',
